@@ -19,12 +19,15 @@ import asyncio
 
 from harness import c01 as h01
 
-RULE = ("exhaustive: (protocol set, AirPlay-video flag, feature name) evaluated on the real facade and on the model; "
-        "non-trivial = the facade reports the feature in a state other than Unsupported (the property's hypothesis "
-        "holds) — among those, rows where the answering protocol differs from the serving one are counted in the "
-        "distribution; plus (protocol, state in {fresh, rich}, feature) for the five get_feature implementations")
+RULE = ("exhaustive over scenarios (harness/c01.py: 31 native sets x AirPlay video flag, all 180 (set-up set, failing-connect "
+        "subset) pairs, 48 MRP-tunnel / unified-RAOP configurations with the Companion service absent / without "
+        "credentials / connected, each with every single failing connect, plus seeded random ones) x {no takeover, takeover "
+        "holders} x 66 feature names, on the real facade and on the model (keyed by the connected set); non-trivial = the "
+        "facade reports the feature in a state other than Unsupported (the property's hypothesis holds); plus (protocol, "
+        "state in {fresh, rich}, feature) for the five get_feature implementations")
 ASSUMPTIONS = [
-    "SetupData.connect/close are replaced by no-ops; interface and Features instances are the real ones from setup()",
+    "SetupData.connect/close are replaced by coroutines answering True/False; interface and Features instances are the real "
+    "ones from the real set-up loop of pyatv.connect; the connected set is the set of protocols whose connect answered True",
     "'the member does not fail merely because nothing implements it' is evaluated as: Relayer.relay(member) returns an "
     "instance attribute instead of raising NotSupportedError (FacadeStream.play_url's availability gate is a different reason)",
     "a feature tagged on two members (VolumeUp/VolumeDown: RemoteControl and Audio) is backed when one of them is",
@@ -165,14 +168,27 @@ def run(ctx, only=None):
     try:
         fmembers = feature_members(patches)
         feats = sorted(FeatureName, key=lambda f: f.value)
-        lines, obs = [], []
-        for S in h01.subsets():
-            for video in (True, False):
-                if not video and "AirPlay" not in S:
-                    continue
-                if only is not None and (h01.set_bits(S), video) not in only:
-                    continue
-                world = h01.World(patches, S, video)
+        obs = []
+        if only is not None:
+            scenarios = only
+        else:
+            scenarios = h01.all_scenarios(patches, ctx.rng.fork("scenarios"), extra=ctx.scale(40, 400))
+        for sc in scenarios:
+            world = h01.World(patches, sc)
+            if world.connect_error or not world.S:
+                ctx.note("scenario:nothing-connected")
+                continue
+            S, video, key = world.S, world.video, h01.scen_key(sc)
+            ctx.note("scenario:" + ("native" if not (sc["tunnel"] or sc["unified"]) else "tunnel/unified")
+                     + ("+failing-connect" if world.fail else ""))
+            holders = [None] + (h01.TEXT_ORDER if (ctx.thorough or not world.fail or only is not None) else [h01.TEXT_ORDER[len(key) % 5]])
+            for holder in holders:
+                release = None
+                if holder is not None:
+                    status, release = world.takeover(holder, list(h01.FACADE_ATTR.keys()))
+                    if status != "ok":
+                        ctx.disagree({"scenario": sc, "holder": holder}, status, "ok", where="takeover of all interfaces")
+                        continue
                 reported, backed, amap = {}, {}, {}
                 for f in feats:
                     try:
@@ -186,16 +202,18 @@ def run(ctx, only=None):
                     entry = world.atv.features._feature_map.get(f)
                     amap[f.name] = entry[0].name if entry else "-"
                     nontrivial = state != "Unsupported"
-                    ctx.case([h01.set_bits(S), video, f.name], nontrivial,
-                             sample={"set": S, "video": video, "feature": f.name, "state": state,
+                    ctx.case([key, holder, f.name], nontrivial,
+                             sample={"scenario": key, "connected": S, "holder": holder, "feature": f.name, "state": state,
                                      "answered_by": amap[f.name], "backing_members": ["%s.%s" % m for m in ok]}
-                             if nontrivial else None)
+                             if nontrivial and (world.fail or sc["tunnel"] or holder) else None)
                     ctx.note("state:" + state)
                     if nontrivial and not ok:
-                        ctx.fail(f"{h01.set_bits(S)}:{f.name}",
-                                 {"S": S, "video": video, "feature": f.name}, f"{state}; members {members}: all NotSupportedError",
+                        ctx.fail(f"{key}:{holder or '-'}:{f.name}",
+                                 {"scenario": sc, "holder": holder, "feature": f.name},
+                                 f"{state}; members {members}: all NotSupportedError",
                                  "some member the feature stands for is routed to an implementation",
-                                 f"{'+'.join(S)} reports {f.name}={state} but no connected protocol implements "
+                                 f"connected {'+'.join(S)} ({key}, takeover holder {holder or 'none'}) reports {f.name}={state} "
+                                 f"(answered by {amap[f.name]}) but no connected protocol implements "
                                  f"{', '.join('%s.%s' % m for m in members) or '(no member)'}")
                     if nontrivial and ok and amap[f.name] != "-":
                         i, m = ok[0]
@@ -206,16 +224,19 @@ def run(ctx, only=None):
                         serving = patches.owner.get(id(getattr(target, "__self__", None)))
                         if serving is not None:
                             ctx.note("answering-vs-serving:" + ("same" if serving == amap[f.name] else "different"))
-                lines += [f"features {h01.set_bits(S)} {1 if video else 0}", f"backed {h01.set_bits(S)}", f"map {h01.set_bits(S)}"]
-                obs.append((S, video, reported, backed, amap))
+                if release:
+                    release()
+                obs.append((sc, S, video, holder, reported, backed, amap))
+        qs = sorted({q for (_sc, S, video, _h, _r, _b, _a) in obs
+                     for q in (f"features {h01.set_bits(S)} {1 if video else 0}", f"backed {h01.set_bits(S)}", f"map {h01.set_bits(S)}")})
         # the five get_feature implementations, fresh and rich
         proto_lines, proto_obs = [], []
         if only is None:
             for video in (True, False):
                 for rich in (False, True):
-                    world = h01.World(patches, h01.TEXT_ORDER, video)
+                    world = h01.World(patches, h01.scenario(video=video))
                     for proto in h01.TEXT_ORDER:
-                        inst = world.setups[world.Protocol[proto]].interfaces[interface.Features]
+                        inst = world.features_instance(proto)
                         if rich:
                             try:
                                 make_rich(proto, inst)
@@ -233,33 +254,31 @@ def run(ctx, only=None):
                         proto_lines.append(f"proto {proto} {c0} {c1}")
                         proto_obs.append((proto, video, rich, got))
                         ctx.note("get_feature:%s:%s" % (proto, "rich" if rich else "fresh"))
-        answers = ctx.lean(lines + proto_lines + ["failing"])
-        for k, (S, video, reported, backed, amap) in enumerate(obs):
-            case = {"S": S, "video": video}
-            for what, impl, ans in (("features", reported, answers[3 * k]), ("backed", backed, answers[3 * k + 1]),
-                                    ("map", amap, answers[3 * k + 2])):
-                model = kv(ans)
+        answers = ctx.lean(qs + proto_lines + ["failing"])
+        model_of = dict(zip(qs, answers))
+        for (sc, S, video, holder, reported, backed, amap) in obs:
+            case = {"scenario": sc, "holder": holder}
+            for what, impl, q in (("features", reported, f"features {h01.set_bits(S)} {1 if video else 0}"),
+                                  ("backed", backed, f"backed {h01.set_bits(S)}"), ("map", amap, f"map {h01.set_bits(S)}")):
+                model = kv(model_of[q])
                 if model != impl:
                     diff = {n: (impl.get(n), model.get(n)) for n in impl if impl.get(n) != model.get(n)}
                     ctx.disagree(case, {n: v[0] for n, v in diff.items()}, {n: v[1] for n, v in diff.items()}, where=what)
                 ctx.validated(len(impl))
-        for (proto, video, rich, got), ans in zip(proto_obs, answers[3 * len(obs):]):
+        for (proto, video, rich, got), ans in zip(proto_obs, answers[len(qs):]):
             model = kv(ans)
             if model != got:
                 diff = {n: (got.get(n), model.get(n)) for n in got if got.get(n) != model.get(n)}
                 ctx.disagree({"proto": proto, "video": video, "rich": rich}, {n: v[0] for n, v in diff.items()},
                              {n: v[1] for n, v in diff.items()}, where="protocol get_feature")
             ctx.validated(len(got))
-        # rows the model's table check rejects: replay each on the real facade
+        # rows the model's table check rejects must have been found by the oracle above as well
         failing = answers[-1]
         if failing != "-" and only is None:
             for row in failing.split(","):
                 bits, fname = row.split(":")
-                S = [p for p, b in zip(h01.TEXT_ORDER, bits) if b == "1"]
-                hit = False
-                for (S2, video, reported, backed, _a) in obs:
-                    if S2 == S and reported.get(fname) != "Unsupported" and backed.get(fname) == "0":
-                        hit = True     # already reported by the oracle above (same sig)
+                hit = any(h01.set_bits(S2) == bits and reported.get(fname) != "Unsupported" and backed.get(fname) == "0"
+                          for (_sc, S2, _v, _h, reported, backed, _a) in obs)
                 if not hit:
                     ctx.note("model-failing-row-not-reproduced")
                     ctx.notes.setdefault("model_failing_rows_not_reproduced_in_fresh_state", []).append(row)
@@ -274,5 +293,5 @@ def run(ctx, only=None):
 def replay(ctx, failure):
     case = failure["case"]
     c2 = type(ctx)(ctx.prop, ctx.tier, ctx.seed, ctx.driver.driver_rel)
-    run(c2, only=[(h01.set_bits(case["S"]), case["video"])])
+    run(c2, only=[case["scenario"]])
     return any(f["sig"] == failure["sig"] for f in c2.failures)
